@@ -7,8 +7,8 @@ from harness import core, acclib
 
 ID = 'C05'
 MODULE = 'Gpv.Props.C05'
-MODULES = ['Gpv.Props.C05', 'Gpv.Props.C05Float']
-THEOREMS = core.theorems('C05', 'C05Float')
+MODULES = ['Gpv.Props.C05', 'Gpv.Props.C05Float', 'Gpv.Props.C05FloatVar', 'Gpv.Props.C05FloatCov']
+THEOREMS = core.theorems('C05', 'C05Float', 'C05FloatVar', 'C05FloatCov')
 RULE = ('random accumulator kind x shape (0-d..3-d) x length x value family (small ints, dyadics, mixed int/float, '
         'python numbers and ndarrays); read after every push; model run in exact rationals, implementation in floats, '
         'compared with relative tolerance 1e-9; independent oracle = exact batch statistic in Fractions. '
@@ -16,7 +16,14 @@ RULE = ('random accumulator kind x shape (0-d..3-d) x length x value family (sma
 PARTIAL = ['floating-point error bound of the MEAN: proved (C05Float.mean_float_error: every run of the four rounded operations under the '
            'standard model |delta| <= u stays within 6*n*u*max|x| of the exact mean, for 8*n*u <= 1) — the model is the relative-error one '
            '(no overflow/underflow), Lean Float itself is not reasoned about',
-           'floating-point error bounds of variance / covariance: checked by float_probe (a test against the exact rational batch statistic), not proved']
+           'floating-point error bound of the VARIANCE (Welford update + read-out): proved in the same rounding model (C05FloatVar.var_float_defect: '
+           '|n*v - S| <= 4u*S + 58*n^2*u*M^2 for 64*n*u <= 1; var_float_defect_centered: first order linear in the condition number; '
+           'var_float_value_error(_centered) for the rounded read-out var*(n/(n-1))). These are worst-case bounds and are NOT the tolerance the '
+           'harness uses (8*n*eps*kappa); float_probe remains a test against the exact rational batch statistic',
+           'floating-point error bound of the COVARIANCE entry (Cov2.push): proved in the same model (C05FloatCov.cov_float_defect: '
+           '|n*c - Sxy| <= 2u*(t*Sxx + Syy/t) + 58*n^2*u*Mx*My for every t > 0; cov_float_defect_cs with G^2 >= Sxx*Syy; centred and read-out forms; '
+           'the variance is the diagonal case). NOT proved: bounds for merges and for the running variants; exact symmetry of the float matrix '
+           '(false for this operation order: only |c_xy - c_yx| <= 2*bound)']
 ASSUMPTIONS = ['numpy element-wise arithmetic and broadcasting', 'inputs are finite']
 
 SHAPES = [(), (), (1,), (2,), (3,), (4,), (2, 2), (2, 3), (2, 1, 2)]
@@ -40,9 +47,42 @@ def gen_narrow(rng, n, shape):
     return vals
 
 
+LADDERS = [['float32', 'float64'], ['float16', 'float32', 'float64'], ['uint8', 'uint16', 'uint32'], ['int8', 'int16', 'int32', 'int64'],
+           ['int32', 'int64'], ['uint8', 'int16', 'float32', 'float64']]
+
+
+def gen_mixedwidth(rng, n, shape):
+    """observations of ONE kind but different widths: the narrowest dtype arrives first, wider ones later carry values the
+    narrow type cannot hold (0.1, 300 for uint8, 2**40 for int32). Only used for Minimum / Maximum, which are exact."""
+    ladder = rng.choice(LADDERS)
+    k = int(np.prod(shape)) if shape else 1
+    vals = []
+    for i in range(n):
+        dt = ladder[0] if i == 0 else rng.choice(ladder)
+        a = []
+        for _ in range(k):
+            if dt == 'float16':
+                a.append(rng.randint(-64, 64) / 4.0)
+            elif dt == 'float32':
+                a.append(rng.choice([rng.randint(-800, 800) / 8.0, float(np.float32(rng.randint(-90, 90) / 10.0))]))
+            elif dt == 'float64':
+                a.append(rng.choice([rng.randint(-900, 900) / 10.0, rng.randint(-9, 9) * 1e-3, rng.randint(-3, 3) * 1e39]))
+            else:
+                info = np.iinfo(dt)
+                lo, hi = max(info.min, -2 ** 40), min(info.max, 2 ** 40)
+                a.append(rng.choice([hi, hi - 1, lo, lo + 1, rng.randint(lo, hi), rng.randint(max(lo, -300), min(hi, 300))]))
+        if shape == ():
+            vals.append({'arr': a[0], 'dtype': dt})
+        else:
+            vals.append({'arr': np.array(a, dtype=dt).reshape(shape).tolist(), 'dtype': dt})
+    return vals
+
+
 def gen_values(rng, n, shape, family):
     if family == 'narrowint':
         return gen_narrow(rng, n, shape)
+    if family == 'mixedwidth':
+        return gen_mixedwidth(rng, n, shape)
     vals = []
     for _ in range(n):
         def one():
@@ -56,6 +96,9 @@ def gen_values(rng, n, shape, family):
                 return rng.choice([rng.randint(-9, 9), rng.randint(-90, 90) / 4.0])
             if family == 'big':
                 return float(rng.randint(-3, 3) * 2 ** rng.randint(0, 30))
+            if family == 'nearmax':
+                # finite, and so is every mean / extremum of them — but their SUM is not: nothing may be summed up
+                return rng.choice([1.0, 1.0, 1.0, -1.0]) * rng.uniform(0.9, 1.7) * 1e308
             raise ValueError(family)
         if shape == ():
             vals.append(one())
@@ -133,9 +176,16 @@ def oracle_check(ctx, kind, vals_prefix, readout, case, scale):
             ctx.fail('read-raises:%s:%s:%s' % (kind, k, iv), '%s.%s raised %s' % (kind, k, iv), case)
             ok = False
             continue
-        if len(iv[1]) != len(exp[k]) or not all(acclib.close_num(f, q, scale) for f, q in zip(iv[1], exp[k])):
+        if kind in ('min', 'max'):
+            # an extremum is one of the observations: exact wherever a float carries the value exactly
+            good = len(iv[1]) == len(exp[k]) and all(
+                (not (math.isnan(f) or math.isinf(f)) and Fraction(f) == q) if abs(q) < 2 ** 53 else acclib.close_num(f, q, scale)
+                for f, q in zip(iv[1], exp[k]))
+        else:
+            good = len(iv[1]) == len(exp[k]) and all(acclib.close_num(f, q, scale) for f, q in zip(iv[1], exp[k]))
+        if not good:
             ctx.fail('batch-mismatch:%s:%s' % (kind, k),
-                     '%s.%s = %s but the batch statistic is %s' % (acclib.KINDS[kind], k, iv[1][:6], [float(q) for q in exp[k][:6]]),
+                     '%s.%s = %s but the batch statistic is %s' % (acclib.KINDS[kind], k, iv[1][:6], [acclib.show(q) for q in exp[k][:6]]),
                      case)
             ok = False
     if kind == 'var' and 'value' in exp and not isinstance(readout.get('std'), str):
@@ -207,7 +257,8 @@ def float_probe(ctx):
 
 def check(ctx):
     from harness import formulas
-    formulas.check_formulas(ctx, ['Mean._accumulate_obj'])
+    formulas.check_formulas(ctx, ['Mean._accumulate_obj', 'Mean.sum', 'Variance._accumulate_obj', 'Variance.value', 'Covariance._accumulate_obj',
+                                  'Covariance.value'])
     rng = ctx.rng
     ncases = ctx.scale(400, 6000)
     cases = []
@@ -226,12 +277,15 @@ def check(ctx):
         shape = rng.choice(SHAPES)
         if kind == 'cov' and int(np.prod(shape)) > 4:
             shape = (2,)
-        family = rng.choice(['int', 'dyadic', 'tied', 'mixed', 'big', 'narrowint'])
+        family = rng.choice(['int', 'dyadic', 'tied', 'mixed', 'big', 'narrowint'] + (['mixedwidth'] * 3 if kind in ('min', 'max') else [])
+                            + (['nearmax'] if kind in ('min', 'max', 'mean', 'counter') else []))
         n = rng.choice([1, 2, 3, 4, 5, 8, 13, 30] if ctx.quick else [1, 2, 3, 5, 8, 13, 30, 60, 150])
         cases.append((kind, gen_values(rng, n, shape, family), family))
     lines, spans, progs = [], [], []
+    hops = []
     for kind, vals, fam in cases:
         prog = run_case(ctx, kind, vals, fam)
+        hops.append(acclib.gen_history_ops(rng, prog) if fam != 'corpus' else {})
         progs.append(prog)
         ml = acclib.model_lines(prog)
         lines += ml
@@ -240,14 +294,14 @@ def check(ctx):
     if len(mout) != sum(spans):
         raise core.InfraError('driver produced %d lines, expected %d' % (len(mout), sum(spans)))
     pos = 0
-    for (kind, vals, fam), prog, k in zip(cases, progs, spans):
+    for (kind, vals, fam), prog, k, hop in zip(cases, progs, spans, hops):
         model = acclib.parse_model(mout[pos:pos + k])
         pos += k
-        impl, _ = acclib.run_impl(prog)
+        impl, _ = acclib.run_impl(acclib.apply_history_ops(prog, hop))
         flatvals = [acclib.flat(v)[1] for v in vals] if kind != 'counter' else [[Fraction(0)] for _ in vals]
         mx = max([abs(x) for c in flatvals for x in c] + [Fraction(1)])
         scale = mx * mx if kind in ('var', 'cov') else mx
-        case = {'kind': kind, 'values': vals, 'family': fam}
+        case = {'kind': kind, 'values': vals, 'family': fam, 'history_ops': hop}
         distinct = len({tuple(c) for c in flatvals}) >= 2
         ctx.case((kind, vals), len(vals) >= 3 and distinct, sample=case if fam != 'corpus' else None)
         ctx.count('kind:' + kind)
@@ -286,7 +340,7 @@ def replay(ctx, data):
         float_probe(ctx)
         return
     prog = run_case(ctx, case['kind'], case['values'], 'replay')
-    impl, _ = acclib.run_impl(prog)
+    impl, _ = acclib.run_impl(acclib.apply_history_ops(prog, case.get('history_ops')))
     vals = case['values'] if case['kind'] != 'counter' else [0 for _ in case['values']]
     flatvals = [acclib.flat(v)[1] for v in vals]
     mx = max([abs(x) for c in flatvals for x in c] + [Fraction(1)])
